@@ -345,6 +345,111 @@ def _open(I, args, kwargs):
     if contains_sym(args) or contains_sym(kwargs):
         I.unsupported("open() with a symbolic path")
     fs = I.options.get("fs")
-    if fs is not None:
+    if fs is not None and args and fs.covers(args[0]):
         return fs.open(I, *args, **kwargs)
     return I.native(open, *args, **kwargs)
+
+
+# ---------------------------------------------------------------------------------------------------
+# symbolic file system (C20)
+
+@engine_type
+class SymFS(object):
+    """A finite universe of candidate paths below a fake root.  Every path has an existence bit (a Bool term);
+    a path can only exist if its parent directory exists.  Files hold concrete text.  os.path.exists / os.listdir /
+    open on paths below the root are answered from here; listdir returns the existing children in every possible
+    order (pure n-way choices).  Contract: POSIX semantics of exists/listdir/open for reading."""
+
+    def __init__(self, I, root, entries, bits):
+        self.root = root
+        self.entries = {}         # normalised path -> {"dir": bool, "content": str|None, "exists": term}
+        self.opens = []
+        for rel, content in entries.items():
+            p = os.path.normpath(os.path.join(root, rel)) if rel else root
+            self.entries[p] = {"dir": content is None, "content": content, "exists": bits[rel]}
+
+    def psx_symbolic(self):
+        return False
+
+    def covers(self, path):
+        return isinstance(path, str) and (path == self.root or path.startswith(self.root + "/"))
+
+    def exists_term(self, path):
+        p = os.path.normpath(path)
+        e = self.entries.get(p)
+        if e is None:
+            return False
+        if path.endswith("/") and not e["dir"]:
+            return False
+        return e["exists"]
+
+    def exists(self, I, path):
+        return mkbool(self.exists_term(path))
+
+    def isdir(self, I, path):
+        p = os.path.normpath(path)
+        e = self.entries.get(p)
+        if e is None or not e["dir"]:
+            return False
+        return mkbool(e["exists"])
+
+    def listdir(self, I, path):
+        p = os.path.normpath(path)
+        e = self.entries.get(p)
+        if e is None or not I.decide(e["exists"]):
+            I.raise_(FileNotFoundError(2, "No such file or directory", path))
+        if not e["dir"]:
+            I.raise_(NotADirectoryError(20, "Not a directory", path))
+        kids = sorted(k for k in self.entries if os.path.dirname(k) == p and k != p)
+        present = [os.path.basename(k) for k in kids if I.decide(self.entries[k]["exists"])]
+        # any order
+        out = []
+        rest = present
+        while len(rest) > 1:
+            j = I.choose(len(rest))
+            out.append(rest[j])
+            rest = rest[:j] + rest[j + 1:]
+        return out + rest
+
+    def open(self, I, path, mode="r", *a, **k):
+        if mode not in ("r", "rt"):
+            I.unsupported("symbolic file system opened for writing")
+        p = os.path.normpath(path)
+        e = self.entries.get(p)
+        if e is None or not I.decide(e["exists"]):
+            I.raise_(FileNotFoundError(2, "No such file or directory", path))
+        if e["dir"]:
+            I.raise_(IsADirectoryError(21, "Is a directory", path))
+        self.opens.append(p)
+        return io.StringIO(e["content"])
+
+
+def _fs_for(I, path):
+    fs = I.options.get("fs")
+    if fs is not None and fs.covers(path):
+        return fs
+    return None
+
+
+@func_model(os.path.exists)
+def _exists(I, args, kwargs):
+    fs = _fs_for(I, args[0])
+    if fs is not None:
+        return fs.exists(I, args[0])
+    return NotImplemented
+
+
+@func_model(os.path.isdir)
+def _isdir(I, args, kwargs):
+    fs = _fs_for(I, args[0])
+    if fs is not None:
+        return fs.isdir(I, args[0])
+    return NotImplemented
+
+
+@func_model(os.listdir)
+def _listdir(I, args, kwargs):
+    fs = _fs_for(I, args[0]) if args else None
+    if fs is not None:
+        return fs.listdir(I, args[0])
+    return NotImplemented
